@@ -105,3 +105,13 @@ package internal
 //@   ensures @nilloc (result1 == nil) <==> loc != nil
 //@   ensures @wf result1 == nil ==> result0 != nil && trwf(result0) && result0.startDay != nil && *result0.startDay == startDay && *result0.endDay == endDay
 //@   ensures @times result1 == nil ==> secs(result0.startTime) == secs(startTime) && secs(result0.endTime) == secs(endTime)
+
+// timers: internal state not modelled (the run loop's wall-clock behaviour is outside the contracts)
+//@ func (t *EventTimer) Reset [C20]
+//@   nilable
+//@   trusted
+//@   pure
+//@ func (t *EventTimer) Stop [C20]
+//@   nilable
+//@   trusted
+//@   pure
